@@ -1286,6 +1286,18 @@ def cmds_to_specs(cmds, captured=False, envs=None, in_boolop=False):
                 specs[i].background = True
             else:
                 raise xt.XonshError(f"unrecognized redirect {redirect!r}")
+        # `o>e` sends stdout wherever stderr goes: if stderr of that command
+        # is itself redirected (`cmd o>e e> file`), follow it instead of
+        # passing the shell's own file descriptor 2 down.
+        for spec in specs:
+            if (
+                isinstance(spec._stdout, int)
+                and spec._stdout == 2
+                and spec._stderr is not None
+                and not isinstance(spec._stderr, int)
+                and not isinstance(spec._stderr, _PipeRedirectSentinel)
+            ):
+                spec._stdout = spec._stderr
         # Any pipe-redirect sentinel still present means `a>p`/`e>p` was used
         # without a following `|` pipe.
         for spec in specs:
